@@ -441,6 +441,9 @@ func runNative(rf *replayFile, path string, timeout time.Duration) (string, stri
 	cmd := exec.Command("go", "test", "-tags", "verif", "-vet=off", "-count=1", "-v", "-overlay", ovPath, "-run", "^TestVerifReplay$", "-timeout", fmt.Sprintf("%ds", int(timeout.Seconds())), "./"+rf.Pkg)
 	cmd.Dir = repoDir
 	cmd.Env = append(goEnv(), "VERIF_REPLAY="+abs, "VERIF_HARNESS="+rf.Harness)
+	if sweepSpec != "" {
+		cmd.Env = append(cmd.Env, "VERIF_SWEEP="+sweepSpec)
+	}
 	out, _ := cmd.CombinedOutput()
 	s := string(out)
 	if m := regexp.MustCompile(`VERIF-RESULT: (.*)`).FindStringSubmatch(s); m != nil {
@@ -527,6 +530,23 @@ func main() {
 		os.Exit(runProperty(os.Args[2], *tier, *only))
 	case "replay":
 		os.Exit(cmdReplay(os.Args[2]))
+	case "sweep":
+		// vcheck sweep <pkg> <Hfunc> 'a=0..3,b=0..1': native self-test of a harness over a product of small ranges
+		sweepSpec = os.Args[4]
+		rf := &replayFile{Pkg: os.Args[2], Harness: os.Args[3]}
+		tmp := filepath.Join(workDir, "sweep-empty.json")
+		os.MkdirAll(workDir, 0o755)
+		os.WriteFile(tmp, []byte(`{"values":{}}`), 0o644)
+		res, out := runNative(rf, tmp, 900*time.Second)
+		for _, l := range strings.Split(out, "\n") {
+			if strings.HasPrefix(l, "VERIF-SWEEP-FAIL") {
+				fmt.Println(l)
+			}
+		}
+		fmt.Println(res)
+		if res == "" {
+			fmt.Println(out)
+		}
 	case "worker":
 		cmdWorker()
 	case "harness":
@@ -569,6 +589,7 @@ func main() {
 	}
 }
 
+var sweepSpec string
 var noFeasGlobal bool
 var pinCase map[string]int64
 
